@@ -7,9 +7,10 @@
 -/
 import WrapModel.Model.Inst
 import WrapModel.Spec.Subst
+import WrapModel.Lemmas.C02Lemmas
 
 namespace WrapModel.Props.C02
-open WrapModel WrapModel.Inst WrapModel.Spec
+open WrapModel WrapModel.Inst WrapModel.Spec WrapModel.Str WrapModel.C02L
 
 theorem bind_ok {ε α β : Type} {a : Except ε α} {f : α → Except ε β} {r : β} :
     (a >>= f) = .ok r ↔ ∃ x, a = .ok x ∧ f x = .ok r := by
@@ -90,5 +91,233 @@ example :
     ∧ cppOf (instType ["T"] [pose3] none none (vecOf tyT)) = "std::vector<gtsam::Pose3>"
     ∧ tyToCpp (substType ["T"] [pose3] none (vecOf tyT)) = "std::vector<gtsam::Pose3>" := by
   decide
+
+
+/-! ### agreement inside the guard: the code computes the capture-free substitution -/
+
+/-- **Unqualified simple names** (`T`, `This`, `Pose3`, with any qualifiers): the code computes exactly the
+    capture-free substitution.  Guards: the name is a plain identifier; a non-parameter other than `This` does not
+    contain the letters `This` (the code's test is a substring test); `This` has a class to denote. -/
+theorem C02_unqualified_exact (tns : List String) (insts : List Typename) (cpp icls : Option Typename)
+    (n : String) (q : Quals) (b : Bool)
+    (hlen : insts.length = tns.length) (hn : noColon n = true)
+    (hthis : n = "This" → n ∉ tns → (thisOf icls cpp).isSome = true)
+    (hsub : n ≠ "This" → n ∉ tns → pyIn "This" n = false) :
+    instType tns insts cpp icls (.simple ⟨[], n, []⟩ q b)
+      = .ok (substType tns insts (thisOf icls cpp) (.simple ⟨[], n, []⟩ q b)) := by
+  have hsc : isScopedTemplate tns n = none := isScopedTemplate_unscoped tns n (pyIn_sep_noColon n hn)
+  cases hi : indexOf? n tns with
+  | some k =>
+    have hk : k < insts.length := by rw [hlen]; exact indexOf?_lt hi
+    have hget : insts[k]? = some insts[k] := by simp [hk]
+    simp [instType, CType.typename, tnToCpp_plain, hsc, hi, hget, substType, lookupParam, pure, Except.pure, bind, Except.bind]
+  | none =>
+    have hnot : n ∉ tns := indexOf?_none_iff.1 hi
+    by_cases hT : n = "This"
+    · subst hT
+      have := hthis rfl hnot
+      cases icls with
+      | some c => simp [instType, CType.typename, tnToCpp_plain, hsc, hi, substType, lookupParam, thisOf, pure, Except.pure, bind, Except.bind]
+      | none =>
+        cases cpp with
+        | some c => simp [instType, CType.typename, tnToCpp_plain, hsc, hi, substType, lookupParam, thisOf, pure, Except.pure, bind, Except.bind]
+        | none => simp [thisOf] at this
+    · have hne : (n == "This") = false := by simpa using hT
+      simp [instType, CType.typename, tnToCpp_plain, hsc, hi, substType, lookupParam, hne, hsub hT hnot, pure, Except.pure, bind, Except.bind]
+
+
+
+/-- **Qualified names that mention no parameter** (`gtsam::Pose3`, `a::b::C`): left alone, as the specification says.
+    Guards: every `::`-separated word is a plain identifier that is not a parameter (the code looks for parameters
+    among *all* words, not only the head) and does not contain the letters `This`. -/
+theorem C02_qualified_other_exact (tns : List String) (insts : List Typename) (cpp icls : Option Typename)
+    (h : String) (rest : List String) (n : String) (q : Quals) (b : Bool)
+    (hp : ∀ t ∈ tns, noColon t = true)
+    (hw : ∀ w ∈ h :: (rest ++ [n]), noColon w = true ∧ w ∉ tns ∧ pyIn "This" w = false) :
+    instType tns insts cpp icls (.simple ⟨h :: rest, n, []⟩ q b)
+      = .ok (substType tns insts (thisOf icls cpp) (.simple ⟨h :: rest, n, []⟩ q b)) := by
+  obtain ⟨y, r, hyr⟩ : ∃ y r, rest ++ [n] = y :: r := by
+    cases rest with
+    | nil => exact ⟨n, [], rfl⟩
+    | cons a t => exact ⟨a, t ++ [n], rfl⟩
+  have hstr : tnToCpp ⟨h :: rest, n, []⟩ = joinWith "::" (h :: y :: r) := by
+    rw [tnToCpp_qualified]; simp [hyr]
+  have hsplit : pySplit (joinWith "::" (h :: y :: r)) "::" = h :: y :: r :=
+    pySplit_join h (y :: r) (by intro w hw'; rw [← hyr] at hw'; exact (hw w hw').1)
+  have hsc : isScopedTemplate tns (joinWith "::" (h :: y :: r)) = none := by
+    apply isScopedTemplate_quiet
+    intro t ht hmem
+    rw [hsplit, ← hyr] at hmem
+    exact (hw t hmem).2.1 ht
+  have hidx : indexOf? (joinWith "::" (h :: y :: r)) tns = none := by
+    apply indexOf?_none_iff.2
+    intro hmem
+    have := pyIn_sep_noColon _ (hp _ hmem)
+    rw [pyIn_sep_join] at this
+    cases this
+  have hthis : pyIn "This" (joinWith "::" (h :: y :: r)) = false := by
+    rw [pyIn_join "This" (by decide) (by decide)]
+    apply List.any_eq_false.2
+    intro w hw'
+    rw [← hyr] at hw'
+    simp [(hw w hw').2.2]
+  have hne : (joinWith "::" (h :: y :: r) == "This") = false := by simpa using ne_This_of_pyIn hthis
+  have hh := hw h (by simp)
+  have hh2 : (h == "This") = false := by simpa using ne_This_of_pyIn hh.2.2
+  have hl : lookupParam tns insts h = none := lookupParam_none_of_index (indexOf?_none_iff.2 hh.2.1)
+  simp [instType, CType.typename, hstr, hsc, hidx, hne, hthis, substType, substScope, hl, hh2, pure, Except.pure, bind, Except.bind]
+
+
+
+/-- **A scoped use of a parameter** (`T::Value`): the code rewrites the *string* `T::Value` with `str.replace`; the
+    resulting C++ spelling is the capture-free one.  Guards: plain identifiers, the nested name is not itself a
+    parameter, the parameter's spelling does not occur inside the nested name (else: `C02_counterexample_substring`),
+    and the instantiation has no template arguments of its own (else they end up behind the nested name). -/
+theorem C02_scoped_param_cpp (tns : List String) (insts : List Typename) (cpp icls : Option Typename)
+    (T X : String) (q : Quals) (b : Bool) (idx : Nat) (i : Typename)
+    (hT : noColon T = true) (hTne : T ≠ "") (hX : noColon X = true)
+    (hidx : indexOf? T tns = some idx) (hi : insts[idx]? = some i) (hXp : X ∉ tns)
+    (hsub : pyIn T X = false) (hins : i.insts = []) :
+    cppOf (instType tns insts cpp icls (.simple ⟨[T], X, []⟩ q b))
+      = tyToCpp (substType tns insts (thisOf icls cpp) (.simple ⟨[T], X, []⟩ q b)) := by
+  have hstr : tnToCpp ⟨[T], X, []⟩ = joinWith "::" [T, X] := by rw [tnToCpp_qualified]; rfl
+  have hsplit : pySplit (joinWith "::" [T, X]) "::" = [T, X] :=
+    pySplit_join T [X] (by intro w hw; simp at hw; rcases hw with rfl | rfl <;> assumption)
+  have hsc : isScopedTemplate tns (joinWith "::" [T, X]) = some (T, idx) := by
+    unfold isScopedTemplate
+    have := isScopedTemplate_go_first (joinWith "::" [T, X]) (pySplit (joinWith "::" [T, X]) "::") (pyIn_sep_join T X []) T
+      (by rw [hsplit]; simp) tns 0 idx
+      (by intro t ht hm; rw [hsplit] at hm; simp at hm; rcases hm with rfl | rfl; rfl; exact absurd ht hXp) hidx
+    simpa using this
+  have hl : lookupParam tns insts T = some i := by simp [lookupParam, hidx, hi]
+  obtain ⟨ins, inm, iis⟩ := i
+  simp only at hins; subst hins
+  simp only [instType, CType.typename, hstr, hsc, hi, pyReplace_scoped T X inm hT hTne hsub, pure, Except.pure, bind, Except.bind,
+    cppOf, tyToCpp, substType, substScope, hl, scopeName, List.isEmpty_nil, ite_true, tnToCpp_qualified]
+  rw [joinWith_scoped_tail]
+  simp
+
+
+
+/-- **`This::X` at top level** of a member type: exact when the class is at global scope and is not an instantiation
+    (PARTIAL: the code inserts only the class *name*; for a namespaced class see `C02_counterexample_this_scope_namespaced`). -/
+theorem C02_this_scope_partial (tns : List String) (insts : List Typename) (cn X : String) (q : Quals) (b : Bool)
+    (hp : ∀ t ∈ tns, noColon t = true) (hX : noColon X = true)
+    (hT : "This" ∉ tns) (hXp : X ∉ tns) :
+    instType tns insts (some ⟨[], cn, []⟩) none (.simple ⟨["This"], X, []⟩ q b)
+      = .ok (substType tns insts (thisOf none (some ⟨[], cn, []⟩)) (.simple ⟨["This"], X, []⟩ q b)) := by
+  have hstr : tnToCpp ⟨["This"], X, []⟩ = joinWith "::" ["This", X] := by rw [tnToCpp_qualified]; rfl
+  have hsplit : pySplit (joinWith "::" ["This", X]) "::" = ["This", X] :=
+    pySplit_join "This" [X] (by intro w hw; simp at hw; rcases hw with rfl | rfl; decide; assumption)
+  have hsc : isScopedTemplate tns (joinWith "::" ["This", X]) = none := by
+    apply isScopedTemplate_quiet
+    intro t ht hm
+    rw [hsplit] at hm; simp at hm
+    rcases hm with rfl | rfl
+    · exact hT ht
+    · exact hXp ht
+  have hidx : indexOf? (joinWith "::" ["This", X]) tns = none := by
+    apply indexOf?_none_iff.2
+    intro hmem
+    have := pyIn_sep_noColon _ (hp _ hmem)
+    rw [pyIn_sep_join] at this
+    cases this
+  have hin : pyIn "This" (joinWith "::" ["This", X]) = true := by
+    rw [pyIn_join "This" (by decide) (by decide)]; simp [pyIn_This_This]
+  have hne : (joinWith "::" ["This", X] == "This") = false := by
+    have : joinWith "::" ["This", X] ≠ "This" := by
+      intro e
+      have h1 := pyIn_sep_join "This" X []
+      rw [e] at h1
+      revert h1; decide
+    simpa using this
+  have hl : lookupParam tns insts "This" = none := lookupParam_none_of_index (indexOf?_none_iff.2 hT)
+  simp [instType, CType.typename, hstr, hsc, hidx, hne, hin, setTypeNamespaces, replaceFirst, substType, substScope, hl, thisOf,
+    scopeName, pure, Except.pure, bind, Except.bind]
+
+/-- for a namespaced class the code drops the namespaces (known finding C02-7) -/
+theorem C02_counterexample_this_scope_namespaced :
+    cppOf (instType [] [] (some ⟨["gtsam"], "Foo", []⟩) none (.simple ⟨["This"], "Params", []⟩ .plain false)) = "Foo::Params"
+    ∧ tyToCpp (substType [] [] (some ⟨["gtsam"], "Foo", []⟩) (.simple ⟨["This"], "Params", []⟩ .plain false)) = "gtsam::Foo::Params" := by
+  decide
+
+/-- a scoped use of a parameter whose instantiation is itself templated is misspelled (known finding C02-5):
+    the guard `i.insts = []` of `C02_scoped_param_cpp` is necessary -/
+theorem C02_counterexample_scoped_templated_inst :
+    cppOf (instType ["U"] [⟨[], "Test", [⟨[], "char", []⟩]⟩] none none (.simple ⟨["U"], "Type", []⟩ .plain false)) = "Test::Type<char>"
+    ∧ tyToCpp (substType ["U"] [⟨[], "Test", [⟨[], "char", []⟩]⟩] none (.simple ⟨["U"], "Type", []⟩ .plain false)) = "Test<char>::Type" := by
+  decide
+
+/-- **Templated types** (`std::vector<T>`, `ns::Map<Key, T>`): the code rewrites the first level of arguments by their
+    last name and then applies three string tests to the rewritten name.  PARTIAL: inside the guard — every argument
+    is a parameter, or a type that mentions no parameter and no `This` at all (a parameter two levels deep is *not*
+    substituted: `C02_counterexample_deep`); the string tests stay quiet on the rewritten name — the result is exactly
+    the capture-free substitution. -/
+theorem C02_templ_first_level_partial (tns : List String) (insts : List Typename) (cpp icls : Option Typename)
+    (nss : List String) (n : String) (ps : List CType) (q : Quals)
+    (hlen : insts.length = tns.length)
+    (hargs : ∀ p ∈ ps, firstLevelOK tns p = true) (hhead : headOK tns nss = true)
+    (hq1 : isScopedTemplate tns (tnToCpp ⟨nss, n, typenames (substTypes tns insts (thisOf icls cpp) ps)⟩) = none)
+    (hq2 : indexOf? (tnToCpp ⟨nss, n, typenames (substTypes tns insts (thisOf icls cpp) ps)⟩) tns = none)
+    (hq3 : pyIn "This" (tnToCpp ⟨nss, n, typenames (substTypes tns insts (thisOf icls cpp) ps)⟩) = false) :
+    instType tns insts cpp icls (.templ nss n ps q)
+      = .ok (substType tns insts (thisOf icls cpp) (.templ nss n ps q)) := by
+  have hne : (tnToCpp ⟨nss, n, typenames (substTypes tns insts (thisOf icls cpp) ps)⟩ == "This") = false := by
+    simpa using ne_This_of_pyIn hq3
+  simp [instType, rewriteParams_agree tns insts (thisOf icls cpp) hlen ps hargs, CType.typename, hq1, hq2, hq3, hne,
+    substType, substScope_headOK tns insts _ _ hhead, pure, Except.pure, bind, Except.bind]
+
+
+
+/-- **C02, agreement region (PARTIAL)**: for every type inside the decidable guard `safeTy`, the code's
+    `instantiate_type` returns exactly the capture-free substitution of the specification — as a tree, hence in
+    every rendering.  Outside the guard the full statement is false (counterexample theorems above). -/
+theorem C02_inst_eq_subst_partial (tns : List String) (insts : List Typename) (cpp icls : Option Typename) (t : CType)
+    (hp : ∀ t ∈ tns, noColon t = true) (hlen : insts.length = tns.length)
+    (h : safeTy tns insts cpp icls t = true) :
+    instType tns insts cpp icls t = .ok (substType tns insts (thisOf icls cpp) t) := by
+  match t, h with
+  | .simple ⟨[], n, []⟩ q b, h =>
+    simp only [safeTy, Bool.and_eq_true, Bool.or_eq_true, List.contains_eq_mem, decide_eq_true_eq] at h
+    apply C02_unqualified_exact tns insts cpp icls n q b hlen h.1
+    · intro hn hnot
+      rcases h.2 with hm | hm
+      · exact absurd hm hnot
+      · simpa [hn] using hm
+    · intro hn hnot
+      rcases h.2 with hm | hm
+      · exact absurd hm hnot
+      · have : (n == "This") = false := by simpa using hn
+        simpa [this] using hm
+  | .simple ⟨a :: rest, n, []⟩ q b, h =>
+    simp only [safeTy, List.all_eq_true, Bool.and_eq_true, Bool.not_eq_true', List.contains_eq_mem, decide_eq_false_iff_not] at h
+    exact C02_qualified_other_exact tns insts cpp icls a rest n q b hp (fun w hw => ⟨(h w hw).1.1, (h w hw).1.2, (h w hw).2⟩)
+  | .simple ⟨_, _, _ :: _⟩ _ _, h => simp [safeTy] at h
+  | .templ nss n ps q, h =>
+    simp only [safeTy, Bool.and_eq_true, List.all_eq_true, Option.isNone_iff_eq_none, Bool.not_eq_true'] at h
+    exact C02_templ_first_level_partial tns insts cpp icls nss n ps q hlen h.1.1 h.1.2 h.2.1.1 h.2.1.2 h.2.2
+
+/-- the same for whole argument lists: names, defaults and every type are those of the specification -/
+theorem C02_args_eq_subst_partial (tns : List String) (insts : List Typename) (cpp : Option Typename)
+    (hp : ∀ t ∈ tns, noColon t = true) (hlen : insts.length = tns.length) :
+    ∀ (as : List Arg), (∀ a ∈ as, safeTy tns insts cpp none a.ctype = true) →
+      instArgs instType tns insts cpp as = instArgs specTyInst tns insts cpp as
+  | [], _ => rfl
+  | a :: as, h => by
+    have ih := C02_args_eq_subst_partial tns insts cpp hp hlen as (fun a' ha' => h a' (by simp [ha']))
+    have h1 := C02_inst_eq_subst_partial tns insts cpp none a.ctype hp hlen (h a (by simp))
+    simp only [instArgs, ih, h1, specTyInst, thisOf]
+
+/-- non-vacuity: concrete types of each kind are inside the guard, and the code's result on them is the substitution -/
+example :
+    safeTy ["T", "U"] [pose3, ⟨[], "double", []⟩] (some ⟨["gtsam"], "Foo", []⟩) none (.simple ⟨[], "T", []⟩ ⟨true, .ref⟩ false) = true
+    ∧ safeTy ["T", "U"] [pose3, ⟨[], "double", []⟩] (some ⟨["gtsam"], "Foo", []⟩) none (.simple ⟨[], "This", []⟩ .plain false) = true
+    ∧ safeTy ["T", "U"] [pose3, ⟨[], "double", []⟩] (some ⟨["gtsam"], "Foo", []⟩) none (.simple ⟨["gtsam", "noise"], "Base", []⟩ ⟨false, .shared⟩ false) = true
+    ∧ safeTy ["T", "U"] [pose3, ⟨[], "double", []⟩] (some ⟨["gtsam"], "Foo", []⟩) none
+        (.templ ["std"] "map" [.simple ⟨[], "U", []⟩ .plain false, .simple ⟨[], "T", []⟩ .plain false, vecOf (.simple ⟨["gtsam"], "Point3", []⟩ .plain false)] .plain) = true
+    ∧ safeTy ["T"] [pose3] none none (vecOf (vecOf tyT)) = false
+    ∧ safeTy ["T"] [pose3] none none (.simple ⟨["ns"], "T", []⟩ .plain false) = false := by
+  decide
+
 
 end WrapModel.Props.C02
